@@ -12,7 +12,7 @@ MANIFEST = {
     'technique': 'CrossHair symbolic execution of the real Python source (z3 string theory), per condition "Confirmed over all paths" or a replayed counterexample',
 }
 
-CONDS = ['tsv_first_last', 'tsv_middle', 'tsv_three_small', 'tsv_wrong_count', 'csv_roundtrip', 'csv_wrong_count', 'vw_two_tokens', 'vw_absent_and_label', 'vw_namespace_order', 'vw_empty_namespace', 'namespace_feature', 'namespace_id']
+CONDS = ['tsv_first_last', 'tsv_middle', 'tsv_three_small', 'tsv_wrong_count', 'csv_roundtrip', 'csv_wrong_count', 'vw_two_tokens', 'vw_absent_and_label', 'vw_namespace_order', 'vw_two_maps', 'vw_empty_namespace', 'namespace_feature', 'namespace_id']
 INFO = {
     'engine': 'crosshair-tool 0.0.110 + z3',
     'explanation': 'see level text',
